@@ -22,20 +22,22 @@ for pid in ids:
     cat=json.load(open(os.path.join(VERIF,"mutants",pid+".json")))
     parts={p["name"] for p in checks[pid]["parts"]}
     for m in cat:
-        path=os.path.join(REPO,m["file"]); src=open(path).read(); new=src; bad=False
+        srcs={}; news={}; bad=False
         for e in (m.get("edits") or [{"find":m["find"],"replace":m["replace"]}]):
-            if new.count(e["find"])!=1: bad=True; break
-            new=new.replace(e["find"],e["replace"])
+            path=os.path.join(REPO,e.get("file") or m["file"])
+            if path not in srcs: srcs[path]=open(path).read(); news[path]=srcs[path]
+            if news[path].count(e["find"])!=1: bad=True; break
+            news[path]=news[path].replace(e["find"],e["replace"])
         if bad:
             save(pid,m["name"],{"rc":None,"error":"find string does not occur exactly once","expect":m.get("expect")}); continue
         env=dict(os.environ,VERIF_REPO=REPO,VERIF_BUILD=BUILD,VERIF_EVIDENCE_DIR=BUILD+"-evidence",VERIF_REPLAY_DIR=BUILD+"-replays")
         if m.get("part") in parts: env["VERIF_ONLY_PART"]=m["part"]
         t0=time.time()
         try:
-            open(path,"w").write(new)
+            for path in news: open(path,"w").write(news[path])
             r=subprocess.run([sys.executable,os.path.join(VERIF,"check.py"),pid,"--tier","quick"],capture_output=True,text=True,env=env)
         finally:
-            open(path,"w").write(src)
+            for path in srcs: open(path,"w").write(srcs[path])
         keys=sorted({re.match(r"  \[[^\]]*\] ([^:]+(?::[A-Za-z][^: ]*)*)",l).group(1) for l in r.stdout.splitlines() if l.startswith("  [") and re.match(r"  \[[^\]]*\] ([^:]+)",l)})[:6]
         entry={"rc":r.returncode,"caught_by":keys,"expect":m.get("expect"),"part":m.get("part"),"wall_s":round(time.time()-t0,1)}
         if r.returncode==2: entry["stderr"]=r.stderr[-600:]
